@@ -627,4 +627,3 @@ func runMonitors(prop, dir string) {
 	enc.Encode(stats)
 	sf.Close()
 }
-
